@@ -267,27 +267,6 @@ def sorted_keys(v):
     return v
 
 
-def cjson(t):
-    """Gallina literal of a parsed JSON text (objects as ('obj', pairs)); None if it holds a float"""
-    if t is None:
-        return 'JNull'
-    if isinstance(t, bool):
-        return '(JBool %s)' % cbool(t)
-    if isinstance(t, int):
-        return '(JInt %s)' % cZ(t)
-    if isinstance(t, float):
-        return None
-    if isinstance(t, str):
-        return '(JStr %s)' % cstr(t)
-    if isinstance(t, list):
-        xs = [cjson(x) for x in t]
-        return None if any(x is None for x in xs) else '(JArr %s)' % clist(xs)
-    if isinstance(t, tuple) and t[0] == 'obj':
-        xs = [(k, cjson(x)) for k, x in t[1]]
-        return None if any(x is None for _, x in xs) else '(JObj %s)' % clist([cpair(cstr(k), x) for k, x in xs])
-    return None
-
-
 def coq_term(case, out):
     k = case['kind']
     if k == 'value':
